@@ -187,7 +187,9 @@ class Probe:
         key = "g" if kind == "gradient" else "h"
         if has_out and dirty and self.bufs[key] is not None:
             buf = self.bufs[key]
-            buf[...] = 1234.5
+            # leftovers of an earlier evaluation: finite garbage, or the NaN of a diverged iterate
+            self.ndirty = getattr(self, "ndirty", 0) + 1
+            buf[...] = np.nan if self.ndirty % 3 == 0 else 1234.5
             kw["out"] = buf
             self.log.count("out-buffer-dirty")
         res = getattr(self.umat, kind)(x, **kw)
